@@ -7,18 +7,21 @@ from common import hexs, lean_driver, rng, unhexs
 from oracle import DatasetView, parse_frac
 
 NEEDS_DATASET = True
-TARGETS = ["RdVerif.Props.C16", "RdVerif.Props.C16Inv"]
+TARGETS = ["RdVerif.Props.C16", "RdVerif.Props.C16Inv", "RdVerif.Props.C16Labels"]
 THEOREMS = ["RdVerif.C16.diagram_is_decay_subgraph", "RdVerif.C16.queue_drained_witness",
             "RdVerif.C16.C16_positions_injective", "RdVerif.C16.C16_edges_from_links", "RdVerif.C16.C16_node_names_nodup",
             "RdVerif.C16.C16_nodes_sound", "RdVerif.C16.C16_nodes_complete", "RdVerif.C16.C16_rows_are_distances",
-            "RdVerif.C16.C16_queue_drained", "RdVerif.C16.C16_checked_dataset"]
+            "RdVerif.C16.C16_queue_drained", "RdVerif.C16.C16_checked_dataset",
+            "RdVerif.C16.C16_label_decodes", "RdVerif.C16.C16_label_injective", "RdVerif.C16.C16_label_hypotheses_hold"]
 PARTIAL = {
     "labels / rendering":
         "node set = reachable set, rows = minimum number of decays, distinct names and positions, edges = listed links are "
         "theorems for EVERY dataset on which the executable checker reachWFb returns true (C16_checked_dataset; the driver "
         "evaluates reachWFb on every synthetic / artificial dataset of the run and, by compiled evaluation, on the shipped "
-        "one), and for the shipped dataset additionally a kernel decision per root. The text of node/edge labels and "
-        "what Matplotlib/networkx draw are compared per input, not proved",
+        "one), and for the shipped dataset additionally a kernel decision per root. The node-label text is modelled "
+        "(Model/Labels.lean, table regenerated from the source, compared with the real function for every name) and proved to "
+        "decode back to element / mass number / state (C16_label_decodes, C16_label_injective); the readable half-life line, the "
+        "edge labels and what Matplotlib/networkx draw are compared per input, not proved",
 }
 ASSUMPTIONS = ["networkx stores nodes/edges/attributes as given; Matplotlib rendering not modelled"]
 
@@ -101,6 +104,30 @@ def correspondence(rep, ctx):
         if not ok:
             fail(i, msg)
     rep.dist("roots", len(roots))
+    # the label texts: real _parse_nuclide_label / _parse_decay_mode_label vs the Lean label model, for every nuclide name of
+    # the dataset (+ names with each state letter) and every decay-mode string that occurs (+ a few composed ones)
+    lab_names = list(view.names) + ["SF", "X-1p", "Og-294q", "U-238r", "Fe-56x", "H-3n"]
+    lab_modes = sorted({str(m) for ms in dd.modes for m in ms}) + ["β-n", "β+p", "14C", "24Ne & 26Ne", "ε", "β-β-", "2β+", "SF & α"]
+    if ctx.build_ok:
+        out = lean_driver([f"label\t{hexs(n)}" for n in lab_names] + [f"modelabel\t{hexs(m)}" for m in lab_modes])
+        for n_, o in zip(lab_names, out[:len(lab_names)]):
+            try:
+                real = ("ok", rd.plots._parse_nuclide_label(n_))
+            except Exception as e:  # noqa: BLE001
+                real = ("err", type(e).__name__)
+            mdl = ("ok", unhexs(o[3:])) if o.startswith("ok ") else ("err", "")
+            rep.case(("label", n_))
+            rep.dist("label-texts")
+            if real[0] != mdl[0] or (real[0] == "ok" and real[1] != mdl[1]):
+                ctx.broken.append(f"correspondence:label:{n_}")
+                rep.notes.setdefault("divergences", []).append({"name": n_, "real": real, "model": mdl})
+        for m_, o in zip(lab_modes, out[len(lab_names):]):
+            real = rd.plots._parse_decay_mode_label(m_)
+            rep.case(("modelabel", m_))
+            rep.dist("label-texts")
+            if not o.startswith("ok ") or unhexs(o[3:]) != real:
+                ctx.broken.append(f"correspondence:modelabel:{m_}")
+                rep.notes.setdefault("divergences", []).append({"mode": m_, "real": real, "model": o})
     # texts on the axes
     import matplotlib
     matplotlib.use("Agg")
